@@ -12,7 +12,9 @@
 
     Oracle (runs on every case, on the IMPLEMENTATION's observation):
       - src is not valid UTF-8        => the scanner must report an error;
-      - the reference lexer fails     => the scanner must report an error;
+      - the reference lexer fails     => the scanner must report an error; its tokens must begin with
+        the agreed grammar tokens (LexPrefixSpec.agreed: all but the last before the failure point)
+        and no error may lie before the end of those (instance of LexPrefix.lex_agrees_before_failure);
       - the reference lexer succeeds  => no error, and in ScanIgnored mode the token list equals the
         reference token list (kind, literal = UTF-8 of the token text, line, column, decoded value),
         in mode 0 the list of its non-ignored tokens;
@@ -32,7 +34,7 @@
     are not compared (the property does not name them). *)
 From Coq Require Import List NArith ZArith Bool String.
 From ApiFu Require Import Base.Sexp Lex.Utf8 Lex.LexModel Lex.LexSpec Lex.LexRel Lex.LexErrors
-  Lex.LexApi Lex.LexApiSpec.
+  Lex.LexApi Lex.LexApiSpec Lex.LexPrefixSpec.
 Import ListNotations.
 Open Scope string_scope.
 
@@ -83,6 +85,24 @@ Fixpoint first_diff (i : nat) (a b : list otok) : option (nat * string) :=
       else first_diff (S i) a' b'
   | _, _ => Some (i, "count")
   end.
+
+(** first difference between the observed tokens and a required PREFIX of them *)
+Fixpoint first_prefix_diff (i : nat) (obs want : list otok) : option (nat * string) :=
+  match want with
+  | [] => None
+  | y :: want' =>
+      match obs with
+      | [] => Some (i, "count")
+      | x :: obs' =>
+          match first_diff 0 [x] [y] with
+          | Some (_, what) => Some (i, what)
+          | None => first_prefix_diff (S i) obs' want'
+          end
+      end
+  end.
+
+Definition pos_before (a b : Z * Z) : bool :=
+  (fst a <? fst b)%Z || ((fst a =? fst b)%Z && (snd a <? snd b)%Z).
 
 Definition token_eqb (a b : token) : bool :=
   tok_eqb (t_kind a) (t_kind b) && (t_off a =? t_off b)%Z && (t_len a =? t_len b)%Z &&
@@ -178,12 +198,25 @@ Definition oracle (src : bytes) (oi os : list otok * list (Z * Z)) : option (str
   | Some cps =>
       match spec_lex cps with
       | (_, EndFuel) => Some ("spec-out-of-fuel", false, [])
-      | (_, EndError why idx _ _) =>
+      | (stoks_e, EndError why idx _ _) =>
           if is_nil (snd oi) || is_nil (snd os) then Some ("accepted-" ++ reason_name why, false, [of_nat idx])
-          else match first_unlocated 0 cps (fst oi ++ fst os) with
-               | Some (i, what) => Some ("token-" ++ what ++ "-in-erroneous-text", false, [of_nat i])
-               | None => None
-               end
+          else
+            let ag := agreed cps stoks_e true in
+            let limit := advance_pos (1, 1)%Z (agreed_count ag) cps in
+            match first_prefix_diff 0 (fst oi) (map otok_of_stoken ag) with
+            | Some (i, what) => Some ("token-" ++ what ++ "-before-failure", false, [of_nat i])
+            | None =>
+                match first_prefix_diff 0 (fst os) (map otok_of_stoken (significant ag)) with
+                | Some (i, what) => Some ("significant-token-" ++ what ++ "-before-failure", false, [of_nat i])
+                | None =>
+                    if existsb (fun e => pos_before e limit) (snd oi ++ snd os)
+                    then Some ("error-before-failure", false, [])
+                    else match first_unlocated 0 cps (fst oi ++ fst os) with
+                         | Some (i, what) => Some ("token-" ++ what ++ "-in-erroneous-text", false, [of_nat i])
+                         | None => None
+                         end
+                end
+            end
       | (stoks, EndOk) =>
           let known := if excl_dangling_exponent cps stoks then Some "dangling-exponent"
                        else if excl_inner_bom stoks then Some "inner-bom" else None in
